@@ -25,6 +25,7 @@ type JNode struct {
 	Ty   int      `json:"ty,omitempty"`
 	Bv   bool     `json:"bv,omitempty"`
 	F    float64  `json:"f,omitempty"`
+	F2   float64  `json:"f2,omitempty"`
 	Op   *OpDesc  `json:"op,omitempty"` // the value of an "op" node; the operator of a "cond" node
 	P    string   `json:"p,omitempty"`  // typed nil pointer: int str stack cond
 	A    string   `json:"a,omitempty"`  // akind of a stack / cond node
@@ -33,12 +34,15 @@ type JNode struct {
 	Sym  string   `json:"sym,omitempty"`
 	Cap  int      `json:"cap,omitempty"`
 	Els  []*JNode `json:"els,omitempty"`
-	Kw   string   `json:"kw,omitempty"`
-	Ex   *JNode   `json:"ex,omitempty"`
+	// Sh > 0: every node of the tree with this number (identical subtrees) is
+	// ONE instance: the first one builds it, the others hand it over again
+	Sh int    `json:"sh,omitempty"`
+	Kw string `json:"kw,omitempty"`
+	Ex *JNode `json:"ex,omitempty"`
 }
 
 func (n *JNode) asNode() *Node { // leaves shared with desc.go
-	return &Node{T: n.T, S: n.S, I: n.I, Ty: n.Ty, Bv: n.Bv, F: n.F}
+	return &Node{T: n.T, S: n.S, I: n.I, Ty: n.Ty, Bv: n.Bv, F: n.F, F2: n.F2}
 }
 
 func (n *JNode) buildStack() stk.Stack {
@@ -78,6 +82,10 @@ func (n *JNode) buildCond() stk.Condition {
 	}
 	return c
 }
+
+// jShared: the instances built for nodes with a share number (stacks under
+// the number, Conditions under its negative); cleared per tree
+var jShared = map[int]any{}
 
 func (n *JNode) Build() any {
 	if n == nil {
@@ -119,7 +127,15 @@ func (n *JNode) Build() any {
 		}
 		return l
 	case "stack":
-		s := n.buildStack()
+		var s stk.Stack
+		if prev, ok := jShared[n.Sh]; ok && n.Sh > 0 {
+			s = prev.(stk.Stack)
+		} else {
+			s = n.buildStack()
+			if n.Sh > 0 {
+				jShared[n.Sh] = s
+			}
+		}
 		switch n.A {
 		case "aval":
 			return aStack(s)
@@ -134,7 +150,15 @@ func (n *JNode) Build() any {
 		}
 		return s
 	case "cond":
-		c := n.buildCond()
+		var c stk.Condition
+		if prev, ok := jShared[-n.Sh]; ok && n.Sh > 0 {
+			c = prev.(stk.Condition)
+		} else {
+			c = n.buildCond()
+			if n.Sh > 0 {
+				jShared[-n.Sh] = c
+			}
+		}
 		switch n.A {
 		case "aval":
 			return aCond(c)
@@ -227,7 +251,7 @@ func (n *JNode) Coq() string {
 		if ty == 0 {
 			ty = 21
 		}
-		return fmt.Sprintf("(JLeaf (GFloat %d%%N %s 0))", ty, jBytes(fmtFloat(n.F, ty)))
+		return fmt.Sprintf("(JLeaf (GFloat %d%%N %s 0))", ty, jBytes(n.asNode().floatText(ty)))
 	case "op":
 		if n.Op.User {
 			return fmt.Sprintf("(JLeaf (GOper (OpUser %s %s)))", jBytes(n.Op.Text), jBytes(n.Op.Ctx))
@@ -343,6 +367,10 @@ func renderAny(v any) *JNode {
 		return &JNode{T: "float", Ty: 21, F: x}
 	case float32:
 		return &JNode{T: "float", Ty: 20, F: float64(x)}
+	case complex64:
+		return &JNode{T: "float", Ty: 22, F: float64(real(x)), F2: float64(imag(x))}
+	case complex128:
+		return &JNode{T: "float", Ty: 23, F: real(x), F2: imag(x)}
 	case stk.ComparisonOperator:
 		return &JNode{T: "op", Op: &OpDesc{Builtin: int(x)}}
 	case userOp:
@@ -486,6 +514,7 @@ func runMarshalRT(raw json.RawMessage) (*Result, error) {
 	if in.Tree == nil || in.Tree.T != "stack" || in.Tree.A != "" {
 		return nil, fmt.Errorf("marshalrt: the tree must be a native stack")
 	}
+	jShared = map[int]any{}
 	orig := in.Tree.Build().(stk.Stack)
 	var (
 		panicked   bool
@@ -579,7 +608,8 @@ func (g *rtGen) leaf(allowEmptyStr bool) *JNode {
 	case x < 75:
 		return &JNode{T: "bool", Bv: g.r.Bool()}
 	case x < 85:
-		return &JNode{T: "float", Ty: 21, F: []float64{1.5, 0, -2.25, 1e21, 3}[g.r.Intn(5)]}
+		nl := numLeaf(g.r)
+		return &JNode{T: "float", Ty: nl.Ty, F: nl.F, F2: nl.F2}
 	}
 	return &JNode{T: "nil"}
 }
@@ -665,6 +695,61 @@ func (g *rtGen) stack(depth int, opaque bool) *JNode {
 	return n
 }
 
+// jClone copies a subtree.
+func jClone(n *JNode) *JNode {
+	if n == nil {
+		return nil
+	}
+	c := *n
+	c.Els = nil
+	for _, e := range n.Els {
+		c.Els = append(c.Els, jClone(e))
+	}
+	c.Ex = jClone(n.Ex)
+	return &c
+}
+
+// share makes some nested Stack / Condition occur again, as the SAME instance:
+// as a later sibling, or below a later sibling ("uncle" position), in a new
+// node form.  Capacities grow with the elements added.
+func (g *rtGen) share(n *JNode, next *int) {
+	if n == nil {
+		return
+	}
+	for _, e := range n.Els {
+		g.share(e, next)
+	}
+	g.share(n.Ex, next)
+	if n.T != "stack" {
+		return
+	}
+	for i, e := range n.Els {
+		if (e.T != "stack" && e.T != "cond") || e.Sh != 0 || !g.r.Pct(35) {
+			continue
+		}
+		*next++
+		e.Sh = *next
+		twin := jClone(e)
+		twin.A = []string{"", "", "aval", "aptr"}[g.r.Intn(4)]
+		// a later sibling stack to put it under, if there is one
+		var uncle *JNode
+		for _, l := range n.Els[i+1:] {
+			if l.T == "stack" && l.Opt&256 == 0 && g.r.Bool() {
+				uncle = l
+			}
+		}
+		host := n
+		if uncle != nil {
+			host = uncle
+		}
+		host.Els = append(host.Els, twin)
+		if host.Cap > 0 {
+			host.Cap++
+		}
+		break
+	}
+}
+
 func genMarshalRT(ctx *Ctx, emit func(any, string)) {
 	eq := &OpDesc{Builtin: 1}
 	str := func(s string) *JNode { return &JNode{T: "str", S: s} }
@@ -704,7 +789,22 @@ func genMarshalRT(ctx *Ctx, emit func(any, string)) {
 		} else {
 			g.maxDepth = 4
 		}
-		emit(&RTInput{Tree: g.stack(0, false), Single: g.r.Pct(40)}, "random")
+		t := g.stack(0, false)
+		if i%3 == 1 {
+			next := 0
+			g.share(t, &next)
+		}
+		emit(&RTInput{Tree: t, Single: g.r.Pct(40)}, "random")
+	}
+	// the same instance twice: as siblings, below a later sibling, typed anew
+	sub := func() *JNode { return &JNode{T: "stack", Kind: "OR", Sh: 1, Els: []*JNode{str("a"), str("b")}} }
+	for _, k := range kinds {
+		twin := sub()
+		twin.A = "aptr"
+		emit(&RTInput{Tree: &JNode{T: "stack", Kind: k, Els: []*JNode{sub(), sub()}}}, "exhaustive")
+		emit(&RTInput{Tree: &JNode{T: "stack", Kind: k, Els: []*JNode{sub(), {T: "stack", Kind: "NOT", Els: []*JNode{sub()}}}}}, "exhaustive")
+		emit(&RTInput{Tree: &JNode{T: "stack", Kind: k, Els: []*JNode{{T: "stack", Kind: "AND", Els: []*JNode{sub()}}, str("m"),
+			{T: "stack", Kind: "NOT", Els: []*JNode{str("n"), twin}}}}, Single: true}, "exhaustive")
 	}
 }
 
@@ -944,7 +1044,13 @@ func randCase(r *Rng, s string) string {
 	return string(b)
 }
 
+// nearLabels: words that are NOT labels (a label is the bare word, in any case)
+var nearLabels = []string{" and ", "list\t", "Not ", " CONDITION", "AND\n", "O R", "\tbasic", "or ", "ANDS", "condition "}
+
 func (g *jkGen) label() string {
+	if g.r.Pct(8) {
+		return nearLabels[g.r.Intn(len(nearLabels))]
+	}
 	return randCase(g.r, []string{"AND", "OR", "NOT", "LIST", "BASIC"}[g.r.Intn(5)])
 }
 
@@ -1142,6 +1248,11 @@ func genMarshalJunk(ctx *Ctx, emit func(any, string)) {
 		{jlist(jlist())},
 		{jlist(jlist(jlist(jstr("OR"), jint(1))))},
 		{jstr("CONDITION"), jstr("k"), eq, jstr("v")},
+		{jstr(" and "), jstr("a"), jstr("b")},
+		{jstr("list\t"), jstr("a"), jstr("b")},
+		{jstr("Not "), jstr("a")},
+		{jstr(" CONDITION"), jstr("k"), eq, jstr("v")},
+		{jstr("AND"), jlist(jstr("or "), jstr("a"), jstr("b")), jlist(jstr(" basic"), jint(1))},
 		{jstr("condition"), jstr("k"), jint(5), jstr("v")},
 		{jstr("CONDITION"), jstr("k"), eq},
 		{jstr("CONDITION"), jstr("k"), eq, jstr("v"), jstr("surplus")},
